@@ -370,13 +370,49 @@ def rule_region_closure(chk, prog):
     (r.bad if bad else r.ok)("nudgeOrthogonalRoutes: every member tested", fn.loc(lp), bad or "")
 
 
+def rule_fixed_order_first(chk, prog):
+    r = chk.rule("FIXED-ORDER-BEFORE-BEND-ORDER", "CmpLineOrder::operator() (the order in which collinear segments are laid out side by side): when one of the "
+                 "two segments is fixed, the side of the fixed segment the other one goes to is decided by fixedOrder() -- so that the fixed "
+                 "segment does not block the movable one -- BEFORE the C-bend / S-bend order() of the two is consulted: the return that "
+                 "compares the order() values is reached only when the fixedOrder() test did not decide (its condition is negated in the "
+                 "path condition)", floor=1)
+    fns = [f for f in prog.all_functions() if f.body and f.q.startswith("Avoid::CmpLineOrder::operator()")]
+    if len(fns) != 1:
+        raise AnalysisBroken("CmpLineOrder::operator() not found")
+    fn = fns[0]
+    def locals_from(callee_suffix):
+        return {d.get("name") for d in fn.nodes() if d.get("k") == "VarDecl" and d.get("init") is not None and any(
+            (c.get("cname") or "").endswith(callee_suffix) for c in walk(d["init"]))}
+    fixed_v = locals_from("::fixedOrder")
+    order_v = locals_from("ShiftSegment::order") | locals_from("NudgingShiftSegment::order")
+    rets = [n for n in fn.nodes() if n.get("k") == "ReturnStmt" and n.get("ch")]
+    ret_order = [n for n in rets if any(x.get("k") == "DeclRefExpr" and x.get("ref") in order_v for x in walk(n["ch"][0]))]
+    if not fixed_v or not order_v or len(ret_order) != 1:
+        raise AnalysisBroken("CmpLineOrder::operator(): the fixedOrder() / order() comparisons were not found (%s, %s, %d)" % (sorted(fixed_v), sorted(order_v), len(ret_order)))
+    r.count()
+    pc = path_condition(fn, ret_order[0], inline=False, early=True)
+    dec = [a for a in atoms(pc) if any(re.search(r"\b%s\b" % re.escape(v), a) for v in fixed_v)]
+    ok = bool(dec)
+    why = "the C-bend order decides before the fixed segment is considered: a movable segment can be sorted onto the blocked side of a fixed one"
+    if ok:
+        # ... and the fixed-order decision itself does not wait for the bend order
+        ret_fixed = [n for n in rets if any(x.get("k") == "DeclRefExpr" and x.get("ref") in fixed_v for x in walk(n["ch"][0]))]
+        for rf in ret_fixed:
+            mixed = [a for a in atoms(path_condition(fn, rf, inline=False))
+                     if "order()" in a.replace(" ", "") or any(re.search(r"\b%s\b" % re.escape(v), a) for v in order_v)]
+            if mixed:
+                ok, why = False, "the fixed-segment decision is taken only under %s" % sorted(mixed)
+    (r.ok if ok else r.bad)("order() consulted after fixedOrder()", fn.loc(ret_order[0]), "" if ok else why)
+
+
 def rule_pairwise_stateless(chk, prog):
     from ..rules.loopstate import carried_locals
     from ..cfg import CFG
     r = chk.rule("PAIR-CONSTRAINTS-STATELESS", "nudgeOrthogonalRoutes, the loop that constrains the current segment against every previously "
                  "seen one: the separation distance and the equality flag of a pair are decided from that pair alone -- no local that "
                  "is assigned inside the loop carries its value to the next pair (except reviewed accumulators); "
-                 "buildConnectorRouteCheckpointCache tests every checkpoint against every segment and every bend (no early exit)", floor=3)
+                 "buildConnectorRouteCheckpointCache tests every checkpoint against every segment and every bend (no early exit); the same for "
+                 "the connector-pair loop of buildOrthogonalNudgingOrderInfo (crossing count and flags are per pair)", floor=4)
     fn = prog.fn("Avoid::ImproveOrthogonalRoutes::nudgeOrthogonalRoutes")
     lps = [n for n in fn.nodes() if n.get("k") == "ForStmt" and "prevVars.begin()" in norm(n.get("init")) and "prevVars.end()" in norm(n.get("cond"))]
     if len(lps) != 1:
@@ -391,6 +427,23 @@ def rule_pairwise_stateless(chk, prog):
               "following, unrelated neighbours" % (nm, rd.get("l")))
     else:
         r.ok("pair loop: no carried state", fn.loc(lps[0]))
+    # the ordering / shared-path information of a pair of connectors is decided from that pair alone
+    fo = prog.fn("Avoid::ImproveOrthogonalRoutes::buildOrthogonalNudgingOrderInfo")
+    pair = [n for n in fo.nodes() if n.get("k") == "ForStmt" and any((c.get("cname") or "").endswith("ConnectorCrossings::countForSegment") for c in walk(n.get("body") or {}))
+            and any(x.get("k") == "ForStmt" for x in walk(n.get("body") or {}))]
+    if not pair:
+        raise AnalysisBroken("buildOrthogonalNudgingOrderInfo: the loop over connector pairs was not found")
+    inner_pair = pair[-1]                    # the innermost loop that still contains the per-segment loop: one iteration = one pair
+    r.count()
+    reviewed = {"crossingsN": "total number of crossings, reported for debugging only"}
+    leak = [c for c in carried_locals(fo, inner_pair) if c[0] not in reviewed]
+    if leak:
+        nm, st, rd = leak[0]
+        r.bad("connector-pair loop of buildOrthogonalNudgingOrderInfo: no carried state", fo.loc(st), "`%s` is declared outside the loop over the partner "
+              "connectors and updated inside it without being re-initialised for each pair: the crossing flags of one partner (e.g. `shares a "
+              "path at an end`) are inherited by the following, unrelated partners, which are then forced onto the connector" % nm)
+    else:
+        r.ok("connector-pair loop of buildOrthogonalNudgingOrderInfo: no carried state", fo.loc(inner_pair))
     # the constraint of a pair is built from that pair's decision
     news = [n for n in walk(lps[0]["body"]) if n.get("k") == "CXXNewExpr" and n.get("at") in ("Avoid::Constraint",)]
     r.count()
@@ -839,6 +892,7 @@ def run(chk):
     chk.guard(rule_limits_narrow, chk, prog)
     chk.guard(rule_region_closure, chk, prog)
     chk.guard(rule_pairwise_stateless, chk, prog)
+    chk.guard(rule_fixed_order_first, chk, prog)
     chk.guard(rule_settings_dirty, chk, prog)
     chk.guard(rule_fixed_flag, chk, prog)
     chk.guard(rule_id_width, chk, prog)
